@@ -455,6 +455,24 @@ def constructor_grid(core):
     return tot, acc, fails
 
 
+def suite_traces(wd):
+    """Run the repository's tokenizer / split / worker tests with the tracing plugin; returns the recorded traces
+    ([] if the suite cannot be run -- the leg is then simply absent, never an alarm)."""
+    from .common import VERIF
+    out = os.path.join(wd, "suite_traces.json")
+    env = dict(os.environ, VERIF_SUITE_TRACE=out, PYTHONPATH=VERIF + os.pathsep + REPO, PYTHONDONTWRITEBYTECODE="1")
+    tests = [t for t in ("tests/test_StreamTokenizer.py", "tests/test_core.py", "tests/test_workers.py", "tests/test_cmdline_util.py")
+             if os.path.exists(os.path.join(REPO, t))]
+    if not tests:
+        return []
+    try:
+        subprocess.run(["/venv/bin/python", "-m", "pytest", "-q", "-p", "no:cacheprovider", "-p", "harness.suite_trace", "--timeout=120", *tests],
+                       cwd=REPO, env=env, capture_output=True, timeout=400)
+        return json.load(open(out))
+    except Exception:
+        return []
+
+
 def apalache_obligations(V, wd):
     """Init => IndInv, IndInv /\\ Next => IndInv', IndInv => Safe on TokenizerInt with symbolic parameters."""
     import shutil as _sh
@@ -551,6 +569,30 @@ def check(prop, tier, replay=None):
         V.count(tot, (f"ctor{i}" for i in range(acc)))
         for f in fails:
             V.violation({"ctor": f}, f"StreamTokenizer constructor {f}", {"leg": "ctor", "case": f})
+
+    # ---- leg S: the repository's own tests, traced from outside and judged by TLC -----------------------------
+    t0 = time.time()
+    straces = suite_traces(wd)
+    if straces:
+        srows, sst = judge("obs", straces, wd, shards=4)
+        V.cov["states"] += sst
+        son = [i for i, t in enumerate(straces) if t["mode"] != "list"]
+        sirows, sist = judge("impl", [straces[i] for i in son], wd, shards=4)
+        V.cov["states"] += sist
+        sacc = {i: r[2] == r[3] for i, r in zip(son, sirows)}
+        for i, (tr, row) in enumerate(zip(straces, srows)):
+            fl = flags_of(row)
+            stream = [e["v"] for e in tr["ev"] if e["e"] == "R"]
+            if prop in fl or ("C04x" in fl and prop == "C04") or ("PARSE" in fl and prop in ("C01", "C04")):
+                V.violation({"p": tr["p"], "stream": stream, "mode": tr["mode"], "suite": True},
+                            f"(execution of the repository's own test-suite) tokenizer p={tr['p']} mode={tr['mode']} stream="
+                            f"{''.join('A' if v else 'a' for v in stream)}: observed tokens {observed(tr)} violate {sorted(fl)}",
+                            {"leg": "S", "trace": strip(tr), "monitors_failed": sorted(fl)})
+            elif i in sacc and not sacc[i]:
+                V.divergence({"suite": True, "p": tr["p"], "stream": stream, "observed": observed(tr)})
+        V.cov["traces_validated_against_impl"] += len(straces)
+        V.count(len(straces), (canon(["suite", t["p"], [e.get("v") for e in t["ev"] if e["e"] == "R"], t["mode"]]) for t in straces if tokens_of(t)))
+    V.leg("S", suite_executions_traced=len(straces), wall_s=round(time.time() - t0, 2))
 
     # ---- leg T ---------------------------------------------------------------------------
     t0 = time.time()
